@@ -1006,6 +1006,9 @@ impl World {
 
 /// Executed at the end of every execution: drop the world, close the allocator window.
 pub fn fresh_window() {
+    // (per-thread observations of the previous execution must not leak into this one)
+    let _ = take_root_drop_dangling();
+    let _ = take_root_double_drops();
     drops_clear();
     TRACE_CALLS.with(|t| t.set(0));
     talloc::begin_window();
